@@ -88,7 +88,7 @@ func main() {
 			e.Rep.Hit("witness")
 			runCase(w)
 		}
-		n := e.N(260, 3000)
+		n := e.N(110, 1500)
 		for i := 0; i < n; i++ {
 			p := genTxnProgram(e.Rng.Fork())
 			runCase(p)
